@@ -326,7 +326,8 @@ package loadbalance
 //@   requires len(uris) >= 1
 //@   ensures [wf] result != nil && len(result.URLs) == len(uris) && len(result.Weights) == len(uris) &&
 //@       result.index == -1 && result.currentWeight == 0
-//@   ensures [weights_positive_and_bounded] forall(j, 0, len(result.Weights), result.Weights[j] >= 1 && result.Weights[j] <= result.maxWeight)
+//@   ensures [weights_positive] forall(j, 0, len(result.Weights), result.Weights[j] >= 1)
+//@   ensures [weights_bounded_by_max] forall(j, 0, len(result.Weights), result.Weights[j] <= result.maxWeight)
 //@   ensures [max_weight_attained] exists(j, 0, len(result.Weights), result.Weights[j] == result.maxWeight)
 //@   ensures [step_is_gcd_of_all_weights] result.gcdWeight == gcdfold(elems(result.Weights), off(result.Weights), len(result.Weights))
 
